@@ -97,6 +97,16 @@ func tTag(c context, s []byte) (context, int) {
 		return c, len(s)
 	}
 	if s[i] == '>' {
+		for _, name := range c.element.names {
+			// The body of a special element ends at that element's end tag, so two
+			// different special elements from conditional branches cannot share a body.
+			if name != c.element.name && specialElements[name] && specialElements[c.element.name] {
+				return context{
+					state: stateError,
+					err:   errorf(ErrBranchEnd, nil, 0, "conditional element names %q and %q have differently terminated bodies", c.element.name, name),
+				}, len(s)
+			}
+		}
 		ret := context{
 			state:      stateText,
 			element:    c.element,
